@@ -1,6 +1,6 @@
 import importlib
 
-MODULES = ['traversal']
+MODULES = ['traversal', 'equality', 'payload']
 
 
 def load_all():
